@@ -8,6 +8,7 @@ import (
 
 	"github.com/mmcloughlin/avo/attr"
 	"github.com/mmcloughlin/avo/build"
+	"github.com/mmcloughlin/avo/ir"
 	"github.com/mmcloughlin/avo/operand"
 	"github.com/mmcloughlin/avo/pass"
 	"github.com/mmcloughlin/avo/printer"
@@ -91,6 +92,19 @@ func c16(c *Ctx) {
 		emit()
 		emit()
 		emit()
+		pressure := fattr&attr.NOFRAME == 0 && rng.Chance(12)
+		if pressure { // fifteen values live at once: the allocator has to use the base pointer
+			var vs []reg.GPVirtual
+			for a := 0; a < 15; a++ {
+				v := ctx.GP64()
+				vs = append(vs, v)
+				ctx.MOVQ(operand.U32(uint32(a)), v)
+			}
+			for a := 1; a < 15; a++ {
+				ctx.ADDQ(vs[a], vs[0])
+			}
+			ctx.MOVQ(vs[0], reg.RAX)
+		}
 		ctx.RET()
 		f, err := ctx.Result()
 		if err != nil {
@@ -110,6 +124,19 @@ func c16(c *Ctx) {
 					frame, _ = strconv.ParseInt(m[1], 10, 64)
 				}
 			}
+		}
+		// whether the compiled code writes the base pointer is read off the instructions' own output lists
+		for _, nd := range f.Functions()[0].Nodes {
+			if in, isI := nd.(*ir.Instruction); isI {
+				for _, op := range in.Outputs {
+					if r, isR := op.(reg.Register); isR && r.ID() == reg.RBP.ID() {
+						clob = true
+					}
+				}
+			}
+		}
+		if pressure {
+			kinds["pressure15"]++
 		}
 		fb := int64(f.Functions()[0].FrameBytes())
 		desc := fmt.Sprintf("sizes=%v clobbers_bp=%v -> offsets=%v frame=%d", sizes, clob, offs, frame)
@@ -141,7 +168,7 @@ func c16(c *Ctx) {
 	o.ExpectEmpty("Cases.v", "R_violation", "violation", "a returned local region leaves the declared frame, overlaps another region, or meets the frame-pointer save slot")
 	// addressing inside a local: the regions, offset and indexed through the operand helpers
 	memHelperFile(o, NewRNG(c.Seed+1601), 3*len(locals), locals, "MemOps.v")
-	o.Plan.Rule = "random histories of 0..7 AllocLocal calls (sizes 0, unaligned 1..7, 8, multiples of 8, arbitrary up to 100) interleaved with instruction emission, with and without a write to the base pointer; compiled with pass.Compile and printed; non-trivial = at least two allocations; distinct by (sizes, clobber)"
+	o.Plan.Rule = "random histories of 0..7 AllocLocal calls (sizes 0, unaligned 1..7, 8, multiples of 8, arbitrary up to 100) interleaved with instruction emission, with and without a write to the base pointer (named, or chosen by the allocator under pressure of fifteen live values); compiled with pass.Compile and printed; non-trivial = at least two allocations; distinct by (sizes, clobber)"
 	o.Plan.Stats["histories"] = n
 	o.Plan.Stats["shape"] = kinds
 }
